@@ -213,6 +213,61 @@ int main()
                 else if (t[1] == "developer") { g_developer = t[2] == "1"; attachStreams(); }
                 else if (t[1] == "stream" && t.size() == 4) { g_streams[std::stoul(t[2]) % 5] = t[3] == "1"; attachStreams(); }
                 else status = "bad-op";
+            } else if (op == "c14" && t.size() >= 8) {
+                // c14 <hex> prot=<b> max=<ms> step=<ms> depth=<n> streams=<5 bits> dev=<b> [## ...]
+                // composite scenario for C14: sentinel, runaway program, then recovery observations
+                auto val = [&](size_t i) { return t[i].substr(t[i].find('=') + 1); };
+                const std::string src = unhex(t[1]);
+                const bool prot = val(2) == "1";
+                const uint64_t maxExec = std::stoull(val(3)), stepMs = std::stoull(val(4)), depth = std::stoull(val(5));
+                const std::string bits = val(6);
+                g_clockStep = 0;
+                for (int i = 0; i < 5; ++i) g_streams[i] = bits[i] == '1';
+                g_streams[0] = true;   // the Output stream carries the observations
+                g_developer = val(7) == "1";
+                freshContext();
+                g_sources["m"] = src;
+                ThreadExecutionProtection& p = g_ctx->GetDirector().GetThreadExecutionProtection();
+                p.SetMaxExecutionTime(maxExec);
+                p.SetLoopProtection(prot);
+                const size_t savedDepth = ScriptExecutionStack::GetMaxStackDepth();
+                ScriptExecutionStack::SetMaxStackDepth(depth);
+                std::string outcome = "ok";
+                {
+                    imemstream stream(src.data(), src.size());
+                    g_ctx->GetDirector().GetProgramScript("m", stream, true);
+                    Event ev0;
+                    g_ctx->GetDirector().ExecuteThread(g_ctx->GetDirector().GetProgramScript("m"), ev0, "sentinel");
+                }
+                g_clockStep = stepMs;
+                try {
+                    Event ev1;
+                    g_ctx->GetDirector().ExecuteThread(g_ctx->GetDirector().GetProgramScript("m"), ev1, "prog");
+                } catch (const std::exception& e) {
+                    outcome = excKind(e);
+                }
+                g_clockStep = 0;
+                const bool cur = g_ctx->GetDirector().CurrentThread() != nullptr;
+                std::string o1 = takeOut();
+                bool sentinel = false, newcall = false, resetOk = false;
+                try { g_clock += 1000; g_ctx->Execute(); sentinel = takeOut().find("s2") != std::string::npos; } catch (const std::exception&) {}
+                try { Event ev2; g_ctx->GetDirector().ExecuteThread(g_ctx->GetDirector().GetProgramScript("m"), ev2, "ping"); newcall = takeOut().find("pong") != std::string::npos; } catch (const std::exception&) {}
+                try {
+                    g_ctx->GetDirector().Reset();
+                    DefaultScriptAllocator& a = g_ctx->GetAllocator();
+                    const bool clean = a.ScriptClass_allocator.Count() == 0 && a.ScriptThread_allocator.Count() == 0 && a.ScriptVM_allocator.Count() == 0;
+                    imemstream stream(src.data(), src.size());
+                    g_ctx->GetDirector().GetProgramScript("m", stream, true);
+                    Event ev3; g_ctx->GetDirector().ExecuteThread(g_ctx->GetDirector().GetProgramScript("m"), ev3, "ping");
+                    resetOk = clean && takeOut().find("pong") != std::string::npos;
+                } catch (const std::exception&) {}
+                ScriptExecutionStack::SetMaxStackDepth(savedDepth);
+                for (int i = 0; i < 4; ++i) g_streams[i] = true;
+                g_streams[4] = false; g_developer = true;
+                say("ok outcome=" + outcome + " cur=" + (cur ? "1" : "0") + " sentinel=" + (sentinel ? "1" : "0") +
+                    " newcall=" + (newcall ? "1" : "0") + " reset=" + (resetOk ? "1" : "0"));
+                freshContext();
+                continue;
             } else if (op == "reset-director") {
                 g_ctx->GetDirector().Reset();
             } else if (op == "save") {
